@@ -155,7 +155,15 @@ func (t *wTx) Rollback() error {
 	if t.dead {
 		return nil
 	}
-	return t.inner.Rollback()
+	err := t.inner.Rollback()
+	// the scheduler is perturbed after the end of a transaction as well: whatever the caller still does with
+	// what it read (memory of the store it must not hold on to) then overlaps with the writers that follow
+	if h := t.in.hook; h != nil {
+		h("after-rollback")
+		h("after-rollback")
+		h("after-rollback")
+	}
+	return err
 }
 
 type wCursor struct {
